@@ -1,4 +1,5 @@
 import FCA.Proofs.InvarianceCtx
+import FCA.Props.C03
 /-
 C15 — Lattice structure is invariant under relabelling, duplication and transposition.
 
@@ -338,5 +339,51 @@ theorem C15_reducible_col {K K' : Ctx} {E : Nat} (a : AddCol K K' E) {A : Nat} :
 #print axioms C15_full_col
 #print axioms C15_full_col_card
 #print axioms C15_reducible_col
+
+
+/-! ## the same statements about the lattice objects the library builds (`mkLattice`) -/
+
+/-- the concept set of `K` is what `iter(context.lattice)` lists, and `len(lattice)` is its size -/
+theorem C15_lattice_is_conceptSet {K : Ctx} (h : K.WF) :
+    (∀ p, p ∈ (mkLattice K).map (fun c => (c.extent, c.intent)) ↔ p ∈ conceptSet K) ∧
+    (mkLattice K).length = (conceptSet K).card := by
+  have hmem : ∀ p, p ∈ (mkLattice K).map (fun c => (c.extent, c.intent)) ↔ p ∈ conceptSet K := by
+    intro p; rw [mem_conceptSet]; exact C03_lattice_iff K h p.1 p.2
+  refine ⟨hmem, ?_⟩
+  have hnd := C03_lattice_nodup K h
+  rw [← List.length_map (f := fun c : LConcept => (c.extent, c.intent)), ← List.toFinset_card_of_nodup hnd]
+  congr 1
+  ext p
+  rw [List.mem_toFinset]; exact hmem p
+
+/-- relabelling: the lattice of the permuted context lists exactly the images of the concepts, and has
+the same number of concepts -/
+theorem C15_lattice_perm {K K' : Ctx} {σ σi τ τi : Nat → Nat} (r : Relabel K K' σ σi τ τi)
+    {A B A' B' : Nat} (hA : Image σ K.n A A') (hB : Image τ K.m B B') :
+    ((A, B) ∈ (mkLattice K).map (fun c => (c.extent, c.intent)) ↔
+      (A', B') ∈ (mkLattice K').map (fun c => (c.extent, c.intent))) ∧
+    (mkLattice K').length = (mkLattice K).length := by
+  constructor
+  · rw [C03_lattice_iff K r.wf, C03_lattice_iff K' r.wf']; exact C15_perm r hA hB
+  · rw [(C15_lattice_is_conceptSet r.wf).2, (C15_lattice_is_conceptSet r.wf').2]; exact C15_perm_card r
+
+/-- transposition: the lattice of the transposed context lists exactly the swapped pairs (the dual lattice) -/
+theorem C15_lattice_transpose {K : Ctx} (h : K.WF) (A B : Nat) :
+    ((B, A) ∈ (mkLattice K.transpose).map (fun c => (c.extent, c.intent)) ↔
+      (A, B) ∈ (mkLattice K).map (fun c => (c.extent, c.intent))) ∧
+    (mkLattice K.transpose).length = (mkLattice K).length := by
+  constructor
+  · rw [C03_lattice_iff K h, C03_lattice_iff K.transpose (transpose_WF h)]; exact C15_transpose h
+  · rw [(C15_lattice_is_conceptSet h).2, (C15_lattice_is_conceptSet (transpose_WF h)).2]; exact C15_transpose_card h
+
+/-- duplicated row / duplicated column / full column: the number of concepts of the lattice is unchanged -/
+theorem C15_lattice_dup_card {K K' : Ctx} :
+    (∀ i₀, DupRow K K' i₀ → (mkLattice K').length = (mkLattice K).length) ∧
+    (∀ j₀, DupCol K K' j₀ → (mkLattice K').length = (mkLattice K).length) ∧
+    (FullCol K K' → (mkLattice K').length = (mkLattice K).length) := by
+  refine ⟨fun i₀ d => ?_, fun j₀ d => ?_, fun d => ?_⟩
+  · rw [(C15_lattice_is_conceptSet d.wf).2, (C15_lattice_is_conceptSet d.wf').2]; exact C15_dup_row_card d
+  · rw [(C15_lattice_is_conceptSet d.addCol.wf).2, (C15_lattice_is_conceptSet d.addCol.wf').2]; exact C15_dup_col_card d
+  · rw [(C15_lattice_is_conceptSet d.addCol.wf).2, (C15_lattice_is_conceptSet d.addCol.wf').2]; exact C15_full_col_card d
 
 end FCA
